@@ -436,6 +436,8 @@ type pyval =
 | VObj of bytes * pyval list
 | VIDict of handle
 | VRef of handle
+| VOList of pyval list
+| VOMap of bool * (atom * pyval) list
 
 type cell =
 | PyDict of (atom * pyval) list
@@ -525,6 +527,8 @@ val iDICT : bytes
 val eMPTY_BYTES : atom
 
 val freeze : nat -> store -> pyval -> pyval option
+
+val deepcopy : nat -> store -> pyval -> pyval option
 
 val as_pair : store -> pyval -> (pyval * pyval) option
 
